@@ -95,10 +95,17 @@ def expr(node: ast.AST, mode: str = "nat", env: dict | None = None) -> str:
             return f"(decide ({go(n.left)} {_CMP[op].replace('==','=').replace('!=','≠').replace('<=','≤').replace('>=','≥')} {go(n.comparators[0])}))"
         if isinstance(n, ast.IfExp):
             return f"(if {go(n.test)} = true then {go(n.body)} else {go(n.orelse)})"
+        if isinstance(n, ast.Call) and isinstance(n.func, ast.Attribute):
+            key = ast.unparse(n.func)
+            if key in env and not n.keywords:
+                return "(" + env[key] + " " + " ".join(go(a) for a in n.args) + ")"
+            raise Untranslatable(f"call {key}")
         if isinstance(n, ast.Call) and isinstance(n.func, ast.Name):
             fn = n.func.id
             if fn in ("max", "min") and len(n.args) == 2 and not n.keywords:
                 return f"({fn} {go(n.args[0])} {go(n.args[1])})"
+            if fn == "int" and len(n.args) == 1 and not n.keywords and mode == "int":
+                return go(n.args[0])
             if fn in env and not n.keywords:
                 return "(" + env[fn] + " " + " ".join(go(a) for a in n.args) + ")"
             raise Untranslatable(f"call {fn}")
